@@ -30,6 +30,9 @@ def _base(name):
         return LogisticRegression(max_iter=300)
     if name == "tree":
         return DecisionTreeClassifier(max_depth=2, random_state=0)
+    if name == "nested":
+        # a tree of logistic regressions whose node classifier is itself such a tree (depth 1): one is fitted while another is being fitted
+        return _mod.DecisionTreeLogisticRegression(estimator=LogisticRegression(max_iter=300), max_depth=1)
     if name == "skewed":
         # decision_function is not the logit of predict_proba (as for bagged or calibrated models): the statement routes by probability
         return SkewedClassifier(shift=0.75)
@@ -182,7 +185,7 @@ def _cases(draw, tier="quick"):
                 fit_improve_algo=draw(st.sampled_from(["auto", "auto", "none", "intercept_sort", "intercept_sort_always"])),
                 p1p2=draw(st.sampled_from([0.09, 0.0, 0.2])), gamma=draw(st.sampled_from([1.0, 0.0, 5.0])))
     mq = draw(st.integers(1, 12))
-    return dict(X=X, z=z, label_kind=kind, la=la, lb=lb, base=draw(st.sampled_from(["logreg", "logreg", "tree", "centroid", "skewed"])), opts=opts,
+    return dict(X=X, z=z, label_kind=kind, la=la, lb=lb, base=draw(st.sampled_from(["logreg", "logreg", "tree", "centroid", "skewed", "nested"])), opts=opts,
                 Q=[[draw(_cell) for _ in range(d)] for _ in range(mq)])
 
 
